@@ -29,6 +29,7 @@ RULES = {
     "R-map": "`r.map(C)` / `r.map(|v| E)` on a Result desugared to `match r { Ok(v) => Ok(C(v)), Err(e) => Err(e) }` (the definition of Result::map); where the mapped callee is a gc allocation or trait-object call it is named by the env helper carrying its assumed contract",
     "R-arm": "a match arm of the interpreter loop wrapped as a function (signature from spec.toml: pattern variables become parameters, `self` becomes the context parameter); only the arm's own statements are verified, not the dispatch",
     "R-block": "one block expression of a function (located by its header) wrapped as a function whose parameters are the block's free variables; only that block's statements are verified",
+    "R-head": "the statements of a function from its beginning up to a located statement (e.g. the argument validation in front of an allocation), wrapped as a function that returns a marker when the end of the head is reached",
     "R-tail": "the statements of a function from a located statement to the end of its body, wrapped as a function whose parameters are the live variables at that point",
     "R-slice": "slice/Vec API call mapped to the env helper with the std semantics stated as its contract",
 }
@@ -121,6 +122,29 @@ def _extract_block(blk):
     return src[a:cb + 1], src.count("\n", 0, a) + 1
 
 
+def _extract_head(t):
+    """The statements of a function from the start of its body up to (excluding) the first depth-0 match of `end`."""
+    src = read(os.path.join(REPO, t["file"]))
+    try:
+        f = rustscan.find_fn(src, t["fn"], within=t.get("within"), nth=t.get("nth", 0))
+    except rustscan.ScanError as e:
+        raise Broken("lost anchor %s in %s: %s" % (t["fn"], t["file"], e))
+    masked = rustscan.mask(src)
+    region_m = masked[f.body_open + 1:f.body_close]
+    depth, depth_at = 0, []
+    for ch in region_m:
+        depth_at.append(depth)
+        if ch in "([{":
+            depth += 1
+        elif ch in ")]}":
+            depth -= 1
+    hit = next((m for m in re.finditer(t["end"], region_m) if depth_at[m.start()] == 0), None)
+    if hit is None:
+        raise Broken("head end %r not found at statement level in %s::%s" % (t["end"], t["file"], t["fn"]))
+    b = f.body_open + 1 + hit.start()
+    return "{ " + src[f.body_open + 1:b] + (t.get("tail", "")) + " }", f.line
+
+
 def _extract_tail(t):
     """The statements of a function from the first depth-0 match of `start` to the end of its body."""
     src = read(os.path.join(REPO, t["file"]))
@@ -163,7 +187,7 @@ def assemble(unit, vacuity=False):
     order = []
     finfo = {}
     items = ([dict(x, _kind="fn") for x in spec.get("fn", [])] + [dict(x, _kind="arm") for x in spec.get("arm", [])]
-             + [dict(x, _kind="block") for x in spec.get("block", [])] + [dict(x, _kind="tail") for x in spec.get("tail", [])])
+             + [dict(x, _kind="block") for x in spec.get("block", [])] + [dict(x, _kind="tail") for x in spec.get("tail", [])] + [dict(x, _kind="head") for x in spec.get("head", [])])
     for fn in items:
         if fn["_kind"] == "arm":
             body_raw, line = _extract_arm(fn)
@@ -175,6 +199,15 @@ def assemble(unit, vacuity=False):
             fn = dict(fn, name="arm " + fn["pattern"])
             if fn.get("tail"):
                 body_raw = "{ " + body_raw + "; " + fn["tail"] + " }"
+            raw = fn["sig"] + " " + body_raw
+        elif fn["_kind"] == "head":
+            body_raw, line = _extract_head(fn)
+
+            class _F:
+                pass
+            f = _F()
+            f.line = line
+            fn = dict(fn, name="head until " + fn["end"])
             raw = fn["sig"] + " " + body_raw
         elif fn["_kind"] == "tail":
             body_raw, line = _extract_tail(fn)
